@@ -187,7 +187,29 @@ def collect(prop, tier):
             # connection was set up, the rest are drawn without looking (one in five sets up no connection at all)
             fs.sort(key=lambda s: (zlib.crc32(json.dumps(s["ops"]).encode()) + seed * 7919) % 1000003)
             n = max(2, int(limit * share[fam]))
-            best = sorted(fs, key=lambda s: -score(s))[:n // 2]
+            def features(s):
+                # what a script exercises after a connection was triggered: each disturbance with the state the model's
+                # connection was in, and each ordered pair of neighbouring disturbances (rests in between dropped)
+                d = dial_at(s)
+                if d < 0:
+                    return set()
+                dist = [o for o in s["ops"][d + 1:] if o["op"] != "Settle"]
+                f = {"%s:%s" % (o["op"], o.get("st", "")) for o in dist}
+                f |= {"%s>%s%s" % (a["op"], b["op"], "" if a["h"] == b["h"] else "'") for a, b in zip(dist, dist[1:])}
+                if dist:
+                    f.add("first:" + dist[0]["op"])
+                return f
+            # half of a family's scripts: a greedy cover of those features (ties: the score below), so that a small budget
+            # still holds every kind of situation the family offers - e.g. DisconnectSKI followed by a transport cut
+            best, covered, cand = [], set(), sorted(fs, key=lambda s: -score(s))
+            while len(best) < n // 2 and cand and not fam.startswith("wrong"):    # (wrong SHIP id: the score alone)
+                gain = max(cand, key=lambda s: len(features(s) - covered))
+                if not features(gain) - covered:
+                    break
+                best.append(gain)
+                covered |= features(gain)
+                cand.remove(gain)
+            best += cand[:n // 2 - len(best)]
             rest = [s for s in fs if s not in best]
             with_dial = [s for s in rest if dial_at(s) >= 0]
             without = [s for s in rest if dial_at(s) < 0]
@@ -215,6 +237,9 @@ def collect(prop, tier):
                 d = dial_at(s)
                 nxt = s["ops"][d + 1]["op"] if 0 <= d < len(s["ops"]) - 1 else ""
                 s["slowDial"] = 40 if (nxt in ("Unregister", "Cancel", "Register", "AutoOff", "Disappear") or j % 4 == 3) else 0
+                # every sixth script: the goroutine that completes a handshake pauses just before it sets the device up, so that a
+                # close from another goroutine (Shutdown, Unregister, DisconnectSKI, ...) may fall before the set-up
+                s["holdComplete"] = 30 if j % 6 == 5 else 0
                 # CancelPairingWithSKI is held between its two steps until a dial that is under way became a connection
                 s["gate"] = s["slowDial"] > 0 and any(o["op"] == "Cancel" for o in s["ops"])
                 # both SKI orderings: the specification calls the hub with the higher SKI "A"; with high = "B" the script is the
